@@ -10,12 +10,13 @@ CLOSING_OPS = {"shell", "exec_out", "root", "list", "stat", "pull", "push", "str
 
 
 class Outcome(object):
-    __slots__ = ("kind", "value", "exc")
+    __slots__ = ("kind", "value", "exc", "partial")
 
-    def __init__(self, kind, value=None, exc=None):
+    def __init__(self, kind, value=None, exc=None, partial=None):
         self.kind = kind     # 'ret' | 'exc' | 'hang' | 'budget'
         self.value = value
         self.exc = exc
+        self.partial = partial   # streaming_shell: items yielded before the exception
 
     @property
     def ok(self):
@@ -97,6 +98,7 @@ class Session(object):
         actor = threading.get_ident()
         rec = self.monitor.begin_call(name, actor, self._closes(name, take))
         normal = False
+        value = None
         try:
             fn = getattr(self.dev, name)
             if name == "streaming_shell":
@@ -113,11 +115,11 @@ class Session(object):
             normal = True
             return Outcome("ret", value)
         except Exception as e:  # noqa
-            return Outcome("exc", exc=e)
+            return Outcome("exc", exc=e, partial=value if isinstance(value, list) else None)
         except transports.Hang as e:
-            return Outcome("hang", exc=e)
+            return Outcome("hang", exc=e, partial=value if isinstance(value, list) else None)
         except transports.BudgetExceeded as e:
-            return Outcome("budget", exc=e)
+            return Outcome("budget", exc=e, partial=value if isinstance(value, list) else None)
         finally:
             self.monitor.end_call(rec, normal, self.sim)
 
@@ -125,6 +127,7 @@ class Session(object):
         actor = transports._task_actor()
         rec = self.monitor.begin_call(name, actor, self._closes(name, take))
         normal = False
+        value = None
         try:
             fn = getattr(self.dev, name)
             if name == "streaming_shell":
@@ -141,11 +144,11 @@ class Session(object):
             normal = True
             return Outcome("ret", value)
         except Exception as e:  # noqa
-            return Outcome("exc", exc=e)
+            return Outcome("exc", exc=e, partial=value if isinstance(value, list) else None)
         except transports.Hang as e:
-            return Outcome("hang", exc=e)
+            return Outcome("hang", exc=e, partial=value if isinstance(value, list) else None)
         except transports.BudgetExceeded as e:
-            return Outcome("budget", exc=e)
+            return Outcome("budget", exc=e, partial=value if isinstance(value, list) else None)
         finally:
             self.monitor.end_call(rec, normal, self.sim)
 
